@@ -27,6 +27,7 @@ THEOREMS = [
     "C19_toggle",
     "C19_generated_good",
     "C19_late_test_differs",
+    "C19_source_disabled",
 ]
 RULE = (
     "a module loaded through the import hook in four fresh interpreters sharing one __pycache__ (imported with "
